@@ -400,7 +400,9 @@ class H:
 
     def exclude_known(self, kf_id, region):
         """remove a known finding's region from the domain (the finding's witness is replayed separately)"""
-        self.notes.append(f"known finding {kf_id}: region excluded from the domain")
+        self.notes.append(f"known finding {kf_id}: region excluded from the domain (its witness is replayed separately)")
+        if self.replay_kf == kf_id:
+            return              # replaying the finding's own witness: the region must stay in
         self.assume(~region, name=f"not-in-known-finding-{kf_id}")
 
     def check(self, name, p):
